@@ -14,6 +14,15 @@ checks = {
  'C18': dict(cat='proof', text="Ghost model of the process (exitCode), stdout and the output file (exists/writable/content/offset/append). For every prior file state and every library result: exit 0 implies stdout == old ++ report ++ newline (4 args) or file content == report (5 args); any library error gives a non-zero exit and unchanged stdout; generate/normalize print exactly the library's values. 94 obligations over 18 functions, all discharged.",
               note="Assumed contracts of os/fmt/ioutil primitives (spec in govc/ghost.go), one output path, the library's results named as functions of its inputs (ensures-assumed clauses, justified by C06); a panic inside the CLI is modelled as exit status 2 with nothing further printed.",
               tech="contract-based deductive verification with a file-system/stdout ghost model, govc + z3/cvc5 (string theory)", ref="5/C18"),
+ 'C06': dict(cat='other', text="Sufficient condition decided per run from the typed AST of the working tree: in a sequential Go program the only ways to lose functional dependence on the inputs are the syntactic nondeterminism sources (range over a map, time.Now, rand, pointer formatting, goroutines) and mutable package state. Every such source reachable from the entry points is an obligation det:<source>; it is discharged only by a recognised commuting loop body (entry copy into another map) or by a committed justification. A new source, or an order-sensitive body (the repaired GetMapKeys defect), fails its obligation.",
+              note="Not a functional proof of byte-identity: OPA evaluation/serialisation and encoding/json are assumed deterministic (A-OPA5); the det: obligations are decided by the effect analysis (frame back end), not by SMT; justifications in spec/c06_allowed_nondeterminism.txt are trusted text.",
+              tech="contract-style determinism obligations from a typed effect analysis of the real code (govc frame back end)", ref="5/C06"),
+ 'C09': dict(cat='proof', text="Equivalence: with the compiled form of a profile text and the report of (compiled profile, data, configuration) named as functions, ValidateWithConfiguration is proved (SMT, modular) to return exactly what ValidateCompiledWithConfiguration returns for ProcessProfile's result, pkg.CompileProfile to return ProcessProfile's result, and the pkg wrappers to delegate unchanged. Reuse: frame obligations show that no function reachable from the validating entry points writes package-level state or stores through the compiled-profile argument, so the report cannot depend on call history.",
+              note="Assumed: OPA compilation is a function of the module text up to generated-identifier numbering and evaluation a function of its inputs (A-OPA5); Eval does not observably mutate the prepared query; rego.ResultSet data is fresh per Eval (A-OPA4).",
+              tech="contract-based deductive verification (delegation postconditions over uninterpreted library functions) + frame obligations from the effect analysis", ref="5/C09"),
+ 'C10': dict(cat='other', text="Sufficient ownership condition, not an exploration of schedules: for each of the five public entry points the frame obligation shows that no reachable function writes a package-level variable (or memory reached from one through a syntactic path or a written-through parameter) except via sync/atomic or sync, and that no goroutine is started on the path, so concurrent calls share only read-only globals and caller-owned arguments. The Genvar counter race found this way was repaired (fix: atomic).",
+              note="Assumed: Go memory model; OPA, json-gold, yaml.v3, regexp are safe for concurrent use as used; reports are invariant under the numbering of generated identifiers (A-OPA5). Interleavings are not explored; aliasing is tracked only one assignment deep.",
+              tech="frame/ownership obligations from a typed effect analysis of the real code (govc frame back end); -race replay as witness", ref="5/C10"),
  'C11': dict(cat='proof', text="Ghost protocol state (chanClosed, evOpen, evNext, evCur) is updated by the translation of channel send/close; every send must satisfy the stage-order assertion, every exported validator closes the channel exactly once on every return path, CompileProfile closes only on error. 94 obligations (pre/post/ghost/safety) over 18 functions, all discharged for all inputs and all failure stages.",
               note="Assumed: the caller drains the channel (A-DRAIN, blocking is not modelled); panics are not returns (C17). Milestones part: see level_note in evidence (GenerateMilestonesFromEvents contract pending).",
               tech="contract-based deductive verification with ghost state: VCs from the Go AST (govc), discharged by z3/cvc5", ref="5/C11"),
